@@ -15,11 +15,11 @@ CHECKS = {
             E1_NOTE, "DESIGN.md section 4 C01"),
     "C02": ("txn-mc", "model_checking",
             "explicit-state BFS to closure over the real handlers; terminal-state oracle plus deadlock and cycle (livelock) detection on the state graph",
-            "Acknowledged mode, every placement of up to F faults (drop/duplicate/overtake/delay; F=1 everywhere, F=2 on small files of the deferred and immediate procedures quick; F=2 everywhere and F=3 drops-only with limit 4 thorough) over all PDUs of both directions, sizes 0,1,seg-1,seg,seg+1,2seg,(3seg-1), four NAK procedures, CRC variant, segment sizes at and below the size of one NAK segment request (12, 8, 7, 4, 1): every terminal state must have destination == source, receiver and sender success indications, both transactions ended; no deadlock, no cycle, no side emitting PDUs for ever without input (spin). Daemon level (daemon-dbx): real daemons, a single acknowledged transfer (17 bytes, <= 1 deviation; the empty file, <= 2 deviations so that the EOF is the first PDU to arrive): every PDU for a live or new receiver must be handed to a transaction, and a transfer that leaves the transaction model is run on over a faithful link and must still deliver the file when no PDU was lost twice and nothing was delayed.",
+            "Acknowledged mode, every placement of up to F faults (drop/duplicate/overtake/delay; F=1 everywhere, F=2 on small files of the deferred and immediate procedures quick; F=2 everywhere and F=3 drops-only with limit 4 thorough) over all PDUs of both directions, sizes 0,1,seg-1,seg,seg+1,2seg,(3seg-1), four NAK procedures, CRC variant, segment sizes at and below the size of one NAK segment request (12, 8, 7, 4, 1): every terminal state must have destination == source, receiver and sender success indications, both transactions ended; no deadlock, no cycle, no side emitting PDUs for ever without input (spin). Daemon level (daemon-dbx): real daemons, a single acknowledged transfer (17 bytes, <= 1 deviation; the empty file, <= 2 deviations so that the EOF is the first PDU to arrive): every PDU for a live or new receiver must be handed to a transaction, and a transfer that leaves the transaction model is run on over a faithful link and must still deliver the file when no PDU was lost twice and nothing was delayed (run-on judgement: the real daemons are left running over a faithful link for twice the C03 bound).",
             E1_NOTE, "DESIGN.md section 4 C02"),
     "C03": ("txn-mc", "model_checking",
             "explicit-state BFS to closure with blackout as an ordinary event (placed before/after every PDU), graph conditions: no deadlock state, no cycle, time bound per path",
-            "Blackout of either/both directions at every state of the exchange, alone, combined with one fault (drop/dup/delay), combined with a user cancel at either entity and one fault, and with a NAK or keep-alive prompt at any state (also in unacknowledged mode with closure); plus independently the C02 fault pool; both modes, closure, NAK procedures, max_count 2 (and 3 thorough), default and Abandon handlers: plus the immediate NAK procedure crossed with a cancel at the receiver and late file data (all four procedures and both cancellers thorough), and a segment size below one NAK request: no Active transaction is ever left without an enabled event (deadlock), the time-abstract state graph is acyclic (no livelock), no side emits more PDUs in a row than the exchange can need without input or timer (spin), and every transaction ends within (max_count+1)*(inactivity+ack+nak) virtual seconds after the last PDU delivered to it.",
+            "Blackout of either/both directions at every state of the exchange, alone, combined with one fault (drop/dup/delay), combined with a user cancel at either entity and one fault, and with a NAK or keep-alive prompt at any state (also in unacknowledged mode with closure); plus independently the C02 fault pool; both modes, closure, NAK procedures, max_count 2 (and 3 thorough), default and Abandon handlers: plus the immediate NAK procedure crossed with a cancel at the receiver and late file data (all four procedures and both cancellers thorough), and a segment size below one NAK request: no Active transaction is ever left without an enabled event (deadlock), the time-abstract state graph is acyclic (no livelock), no side emits more PDUs in a row than the exchange can need without input or timer (spin); daemon level: in every real-daemon run that leaves the transaction model the task loops of the transaction must have ended after twice the bound (transaction-never-ends), and a schedule that does not return within 120 s of real time is reported as a task that never goes idle, and every transaction ends within (max_count+1)*(inactivity+ack+nak) virtual seconds after the last PDU delivered to it.",
             E1_NOTE + " The daemon-level clause (keeps serving other transactions) is part of C11's daemon-dbx runs.", "DESIGN.md section 4 C03"),
     "C04": ("txn-mc", "model_checking",
             "explicit-state BFS to closure with straggler re-delivery of every PDU ever sent, armed from the receiver's first success indication",
@@ -27,7 +27,7 @@ CHECKS = {
             E1_NOTE, "DESIGN.md section 4 C04"),
     "C07": ("txn-mc", "model_checking",
             "explicit-state BFS to closure; the explorer injects NAK PDUs from an alphabet of conforming and non-conforming request lists at every state; monitor on every PDU the sender emits",
-            "Every PDU the real sender hands to the transport is checked: file data bytes/offset/length against the source, first pass tiles the file once in order before EOF, retransmissions lie inside what was requested and everything requested inside the file is retransmitted before the sender goes idle, cursor unchanged by retransmissions, metadata/EOF fields (size, names, reference checksum), header ids/mode/direction, length field through encode/decode. NAK alphabet: empty, beyond EOF, longer than a segment, overlapping, unsorted, duplicated, the 0-0 marker; 1 (quick) / 2 (thorough) injected NAKs also during the first pass; real-receiver NAKs under F faults; user suspend/resume at the sender at every state (a NAK handed to a suspended sender must be answered after resume). Daemon level (daemon-dbx): on every PDU leaving a real daemon the sizes stated in Metadata and EOF(NoError) equal the source's, also when the Put names a symbolic link.",
+            "Every PDU the real sender hands to the transport is checked: file data bytes/offset/length against the source, first pass tiles the file once in order before EOF, retransmissions lie inside what was requested and everything requested inside the file is retransmitted before the sender goes idle, cursor unchanged by retransmissions, metadata/EOF fields (size, names, reference checksum), header ids/mode/direction, length field through encode/decode. NAK alphabet: empty, beyond EOF, longer than a segment, overlapping, unsorted, duplicated, the 0-0 marker; 1 (quick) / 2 (thorough) injected NAKs also during the first pass; real-receiver NAKs under F faults; user suspend/resume at the sender at every state (a NAK handed to a suspended sender must be answered after resume). Daemon level (daemon-dbx): on every PDU leaving a real daemon the sizes stated in Metadata and EOF(NoError) equal the source's, also when the Put names a symbolic link or no destination file; no file data PDU longer than the configured segment (segment size 10); names and request list of the Metadata as in the Put.",
             E1_NOTE + " Inverted ranges (start > end) are not in the alphabet: the property does not list them.", "DESIGN.md section 4 C07"),
     "C08": ("txn-mc", "model_checking",
             "explicit-state BFS to closure with drops-only pools large enough for every loss subset; fill-time oracle on the receiver's request queue (hook H3) and per-PDU well-formedness",
@@ -35,7 +35,7 @@ CHECKS = {
             E1_NOTE, "DESIGN.md section 4 C08"),
     "C10": ("txn-mc", "model_checking",
             "explicit-state BFS to closure with one user cancel placed at every state, at either entity",
-            "Cancel at sender or receiver at every state of a 3-segment transfer, combined with one drop (F=1) or blackout, both modes, closure on/off: canceller ends (no deadlock, no cycle), reachable peer ends, both report CancelReceived unless the delivery had completed first (cancel lost the race) or the mode has no return path / no retransmission for the lost PDU; a file under the destination name after the cancel is always the complete source and only if the receiver reported success.",
+            "Cancel at sender or receiver at every state of a 3-segment transfer, combined with one drop (F=1) or blackout, both modes, closure on/off: canceller ends (no deadlock, no cycle), reachable peer ends, both report CancelReceived unless the delivery had completed first (cancel lost the race) or the mode has no return path / no retransmission for the lost PDU; a file under the destination name after the cancel is always the complete source and only if the receiver reported success; two losses in acknowledged mode (something still missing when the cancel is issued, and the EOF (cancel) lost). Daemon level: cancel at either side on real daemons in both modes; when a run leaves the model the link of the run-on phase loses the first copy of every PDU and the receiving user must still be told the cancel.",
             E1_NOTE, "DESIGN.md section 4 C10"),
     "C18": ("txn-mc", "model_checking",
             "explicit-state BFS to closure over unacknowledged-mode scenarios",
@@ -43,7 +43,7 @@ CHECKS = {
             E1_NOTE, "DESIGN.md section 4 C18"),
     "C19": ("txn-mc", "model_checking",
             "explicit-state BFS to closure with suspend and resume placed at every pair of states, idle time while suspended",
-            "User suspend then resume at every pair of states at sender or receiver, idle periods of 1 and 10 timer periods while everything is paused, optional drop: while suspended the entity emits no Metadata/FileData/EOF/NAK/Finished and declares no Fault/Abandon; after resume, when no peer timer expired during the suspension, the C02 terminal clauses hold; a Prompt requested during the suspension and F=2 losses around a receiver suspension are included.",
+            "User suspend then resume at every pair of states at sender or receiver, idle periods of 1 and 10 timer periods while everything is paused, optional drop: while suspended the entity emits no Metadata/FileData/EOF/NAK/Finished and declares no Fault/Abandon; after resume, when no peer timer expired during the suspension, the C02 terminal clauses hold; a Prompt requested during the suspension and F=2 losses around a receiver suspension are included. Daemon level: suspend/resume at either side of real daemons (also with a NAK delay, so that a delayed gap check falls due during the suspension): nothing forbidden appears in the transport slot of a suspended transaction, and after the resume the file arrives.",
             E1_NOTE + " The select! guard itself is exercised by the daemon-dbx conformance runs.", "DESIGN.md section 4 C19"),
     "C20": ("txn-mc", "model_checking",
             "explicit-state BFS to closure with keep-alive prompts, suspend/resume and limit faults at every state; the monitor keeps its own bit set of delivered bytes",
@@ -59,7 +59,7 @@ CHECKS = {
             "Length- and alphabet-bounded; two pruning rules (documented with their soundness argument in en_decode.rs) skip strings whose outcome is determined by a shorter prefix.", "DESIGN.md section 4 C06"),
     "C11": ("daemon-dbx", "model_checking",
             "deviation-bounded exhaustive scheduling of 2-3 real Daemon tasks (CHESS-style iterative bounding over take/deliver/drop/advance/user/stray choices) with per-transaction differential twins driven by the observed loop steps (hook H5)",
-            "Real daemons A, B (C thorough) with really spawned transaction tasks on a paused clock; T1 A->B acknowledged, T2 B->A unacknowledged with the same sequence number, T3 sharing A's transport slot, three Puts with the sequence counter starting at U8(254); every schedule with <= 2 (quick) / 3 (thorough) deviations from the default, deviations being cross-transaction reordering, drops, overtaking, stray PDUs (responses for senders that do not exist, misrouted responses whose source entity is the peer or unknown — nothing may run for them —, an entity without transport, file data for an unknown id, replays of delivered PDUs, PDUs reflected back to the daemon that sent them), a fire-and-forget Put (reply never read) before the last Put of every schedule, a burst of more copies of one PDU than a transaction's command queue holds, per-entity configurations that differ from the daemons' default at any point: Put ids distinct, each transaction's PDUs, indications, destination file and termination equal those of its isolated twin, daemons keep running and answering Report/Put after every stray, stray-started receivers end by their limits. The same runs validate E1's loop model against the real select! loops (single-transaction conformance).",
+            "Real daemons A, B (C thorough) with really spawned transaction tasks on a paused clock; T1 A->B acknowledged, T2 B->A unacknowledged with the same sequence number, T3 sharing A's transport slot, three Puts with the sequence counter starting at U8(254); every schedule with <= 2 (quick) / 3 (thorough) deviations from the default, deviations being cross-transaction reordering, drops, overtaking, stray PDUs (responses for senders that do not exist, misrouted responses whose source entity is the peer or unknown — nothing may run for them —, an entity without transport, file data for an unknown id, replays of delivered PDUs, PDUs reflected back to the daemon that sent them), a fire-and-forget Put (reply never read) before the last Put of every schedule, a burst of more copies of one PDU than a transaction's command queue holds, a suspension of one of two senders sharing a transport slot, user requests naming ended or unknown transactions at the end of every schedule, per-entity configurations that differ from the daemons' default at any point: Put ids distinct, each transaction's PDUs, indications, destination file and termination equal those of its isolated twin, daemons keep running and answering Report/Put after every stray, stray-started receivers end by their limits. The same runs validate E1's loop model against the real select! loops (single-transaction conformance).",
             "Tens of transactions are not reached: 3 transactions, 3 daemons. A transaction sends as soon as its slot is free and time does not pass while a slot is full. Twin divergence in single-transaction scenarios is reported as machinery error (MODEL-DIVERGENCE), in multi-transaction scenarios as isolation violation.", "DESIGN.md section 4 C11"),
     "C12": ("enum", "exploration",
             "bounded exhaustive enumeration of path names over a component alphabet for every filestore entry point; lexical oracle with an independent resolver plus before/after snapshot of everything outside the root",
@@ -67,7 +67,7 @@ CHECKS = {
             "The harness's own path resolver and snapshot are trusted; operations whose effective path lies outside the jail are not executed (the harness runs as root) but reported. Symlinks are not part of the alphabet.", "DESIGN.md section 4 C12"),
     "C13": ("seq-mc", "model_checking",
             "explicit-state BFS over filestore states: every transition is the real NativeFileStore::process_request on a re-materialised tree, compared with a pure reference model; plus txn-mc scenarios carrying request lists",
-            "Dispatcher: from every consistent tree over the namespace {f1,f2,d1,d1/f3,d2} all nine actions x first x second name (incl. a missing name and the empty name) to depth 2 (quick) / 3 (thorough): status code, echoed names and the whole resulting tree must equal the reference, a failed request changes nothing. Transaction level (txn-mc): request lists [create, append (non-idempotent), delete-missing (fails), rename] under the C02/C04 fault budgets, under a receiver cancel, under an injected bad EOF, and under losses the checksum cannot see (Null checksum, zero content) in unacknowledged mode: no effect before the success indication, each effect once, in order, not-performed after the first failure or when delivery failed, same responses in the receiver's indication, the Finished PDU and the sender's indication.",
+            "Dispatcher: from every consistent tree over the namespace {f1,f2,d1,d1/f3,d2} all nine actions x first x second name (incl. a missing name and the empty name) to depth 2 (quick) / 3 (thorough): status code, echoed names and the whole resulting tree must equal the reference, a failed request changes nothing. Transaction level (txn-mc): request lists [create, append (non-idempotent), delete-missing (fails), rename] under the C02/C04 fault budgets, under a receiver cancel, under an injected bad EOF, and under losses the checksum cannot see (Null checksum, zero content) in unacknowledged mode: no effect before the success indication, each effect once, in order, not-performed after the first failure or when delivery failed, same responses in the receiver's indication, the Finished PDU and the sender's indication. Daemon level: a Put with [create, append, append, rename] on real daemons in every mode; the request list of the outgoing Metadata equals the Put's.",
             "Reference semantics follow the repository's own process_failures tests where CFDP and the code differ; seven classes the statement leaves open are listed under coverage.unconstrained_cases and never flagged.", "DESIGN.md section 4 C13"),
     "C14": ("enum", "exploration",
             "bounded exhaustive enumeration of contents, lengths and read-chunk schedules against the checksum definition written naively",
@@ -83,7 +83,7 @@ CHECKS = {
             "Needs loopback UDP (available in this sandbox; the repository's own integration tests need it too).", "DESIGN.md section 4 C16"),
     "C17": ("txn-mc", "model_checking",
             "explicit-state BFS to closure with blackout at every state and delay faults, exact virtual timestamps; plus explicit-state search of the real Counter against an integer reference",
-            "Limits 1-2 (quick) / 1-3 (thorough) x handler table {unset, cancel, ignore, suspend, abandon} for positive-ack, NAK, inactivity and check-limit faults, blackout placed at every state plus one delay fault, late answers (F=2 drops+delay), checksum/size faults by an injected bad EOF, a timeout grid with the inactivity timeout shorter than the others: no limit fault earlier than max_count x timeout after the first unanswered transmission / the last PDU received, retransmissions never earlier than one timeout apart and exactly max_count transmissions before the fault, answers reset the count, the condition named is one that exists for that side and mode (acknowledged mode with the closure flag set included), a NAK limit is not declared right after new data reset the count (partial answers round after round), and the action taken at every declared fault is the configured one (nothing transmitted after Abandon/Suspend).",
+            "Limits 1-2 (quick) / 1-3 (thorough) x handler table {unset, cancel, ignore, suspend, abandon} for positive-ack, NAK, inactivity and check-limit faults, blackout placed at every state plus one delay fault, late answers (F=2 drops+delay), checksum/size faults by an injected bad EOF, a timeout grid with the inactivity timeout shorter than the others: no limit fault earlier than max_count x timeout after the first unanswered transmission / the last PDU received, retransmissions never earlier than one timeout apart and exactly max_count transmissions before the fault, answers reset the count, the condition named is one that exists for that side and mode (acknowledged mode with the closure flag set included), a NAK limit is not declared right after new data reset the count (partial answers round after round), and the action taken at every declared fault is the configured one (nothing transmitted after Abandon/Suspend). Daemon level: an octet-identical retransmission by a real daemon with nothing received in between is never earlier than the configured timeout of that timer, with ack timeout above and below the NAK timeout.",
             E1_NOTE + " Time does not pass while a transaction has a PDU ready for its transport (a local transport stalled for a whole timer period is not modelled).", "DESIGN.md section 4 C17"),
     "C09": ("seq-mc", "model_checking",
             "explicit-state BFS to closure over the real Segments::merge with a bit-set reference model, all queries evaluated in every state",
